@@ -69,7 +69,7 @@ def consume_grouped(api: str, src, keep: bool = True, meta: bool = False) -> tup
     return out, exc
 
 
-def consume_to_graph(api: str, src, quads: bool) -> tuple[list, str | None]:
+def consume_to_graph(api: str, src, quads: bool, tx: bool = False) -> tuple[list, str | None]:
     """What the caller's Graph/Dataset/sink holds after the parse returned or raised."""
     from mc import drivers as DR  # noqa: PLC0415
 
@@ -87,7 +87,15 @@ def consume_to_graph(api: str, src, quads: bool) -> tuple[list, str | None]:
         return [("st", T.norm_st(T.st_from_generic(s))) for s in sink], exc
     import rdflib  # noqa: PLC0415
 
-    g = rdflib.Dataset() if quads else rdflib.Graph()
+    if tx:
+        # a store with transactions (rollback really removes what was added since the last commit)
+        from rdflib.plugins.stores.auditable import AuditableStore  # noqa: PLC0415
+        from rdflib.plugins.stores.memory import Memory  # noqa: PLC0415
+
+        store = AuditableStore(Memory())
+        g = rdflib.Dataset(store=store) if quads else rdflib.Graph(store=store)
+    else:
+        g = rdflib.Dataset() if quads else rdflib.Graph()
     exc = None
     try:
         g.parse(src, format="jelly")
@@ -104,7 +112,7 @@ def judge(entry, k: int, got: list, mode: str, api: str) -> str | None:
             complete += evs
         else:
             break
-    if mode == "graph_parse":
+    if mode in ("graph_parse", "graph_parse_tx"):
         gs, fulls = set(got), {e for e in full if e[0] == "st"}
         want = {e for e in complete if e[0] == "st"}
         if not gs <= fulls:
@@ -144,8 +152,32 @@ def judge(entry, k: int, got: list, mode: str, api: str) -> str | None:
 _TMP = None
 
 
+_HUGE: dict = {}
+
+
+def huge_entry() -> dict:
+    """A small frame, a frame of a little more than 1 MiB, a small frame."""
+    if not _HUGE:
+        from mc import drivers as DR  # noqa: PLC0415
+        from mc.terms import I, L  # noqa: PLC0415
+
+        seq = [(I("http://h/s"), I("http://h/p"), L("first")),
+               (I("http://h/s"), I("http://h/p"), L("z" * 1_052_000)),
+               (I("http://h/s"), I("http://h/q"), L("last"))]
+        data = corpus.recut_per_statement(
+            DR.g_write(seq, "triple", DR.make_options("triple", (16, 4, 4), 250, True)))
+        e = corpus._entry("mib-frame/triple", "triple", data, True)
+        e["huge"] = True
+        _HUGE["e"] = e
+    return _HUGE["e"]
+
+
 def run_case(case: dict) -> str | None:
-    entry = next(e for e in corpus.base_streams(case["corpus"]) if e["name"] == case["stream"])
+    if case["stream"] == "mib-frame/triple":
+        entry = huge_entry()
+    else:
+        entry = next(e for e in corpus.base_streams(case["corpus"])
+                     if e["name"] == case["stream"])
     k = case["cut"]
     data = entry["data"][:k]
     def on_disk():
@@ -168,8 +200,9 @@ def run_case(case: dict) -> str | None:
            # the connection drops: the transport raises instead of reporting end-of-file
            "raw-reset": lambda: faultio.ResetRaw(data),
            "raw-reset-7": lambda: faultio.ResetRaw(data, 7)}[case["source"]]()
-    if case["mode"] == "graph_parse":
-        got, exc = consume_to_graph(case["api"], src, entry["cls"] != "triple")
+    if case["mode"] in ("graph_parse", "graph_parse_tx"):
+        got, exc = consume_to_graph(case["api"], src, entry["cls"] != "triple",
+                                    tx=case["mode"] == "graph_parse_tx")
     elif case["mode"] == "flat_strict":
         got, exc = consume_flat(case["api"], src, logical_type_strict=True)
     elif case["mode"] == "grouped_meta":
@@ -184,7 +217,7 @@ def run_case(case: dict) -> str | None:
 
 def shard(job) -> dict:
     size, idx = job
-    entry = dict(corpus.base_streams(size)[idx])
+    entry = dict(corpus.base_streams(size)[idx]) if idx >= 0 else dict(huge_entry())
     acc = pool.Acc()
     n = len(entry["data"])
     # (strict parsing accepts the stream at all only if its header states a flat logical type)
@@ -197,7 +230,10 @@ def shard(job) -> dict:
     except Exception:  # noqa: BLE001
         entry["flat_logical"] = False
     ends = {hi for _, hi in entry["offsets"]}
-    if entry.get("big"):
+    if entry.get("huge"):
+        cuts = sorted({min(n, max(0, b + d)) for _, b in entry["offsets"] for d in range(-2, 3)}
+                      | {0, n, n // 2})
+    elif entry.get("big"):
         # big streams: every offset within 3 bytes of a frame boundary, plus every 257th offset
         cuts = sorted({min(n, max(0, b + d)) for _, b in entry["offsets"] for d in range(-3, 4)}
                       | {lo + d for lo, _ in entry["offsets"] for d in range(0, 4)}
@@ -212,7 +248,9 @@ def shard(job) -> dict:
                 strict = ("flat_strict",) if entry.get("flat_logical") and source in (
                     "bytesio", "file") else ()
                 for mode in ("flat", "grouped", "graph_parse") + strict + (
-                        ("grouped_meta",) if source in ("bytesio", "raw") else ()):
+                        ("grouped_meta",) if source in ("bytesio", "raw") else ()) + (
+                        ("graph_parse_tx",) if api == "rdflib" and source == "bytesio"
+                        and entry["cls"] == "triple" else ()):
                     case = {"corpus": size, "stream": entry["name"], "cut": k, "source": source,
                             "api": api, "mode": mode}
                     acc.evals += 1
@@ -236,7 +274,7 @@ def run(ctx) -> None:
     size = "small" if ctx.quick else "full"
     streams = corpus.base_streams(size)
     try:
-        merged = pool.merge(pool.pmap(shard, [(size, i) for i in range(len(streams))]))
+        merged = pool.merge(pool.pmap(shard, [(size, i) for i in range(-1, len(streams))]))
     finally:
         import glob  # noqa: PLC0415
         import os  # noqa: PLC0415
